@@ -166,7 +166,9 @@ def lexer_tables(repo: Path):
     for name in [t for _, t in single + double + triple + kws] + cont:
         if name not in tokens:
             raise ExtractError("tokens", f"Token::{name} used in a table but not declared")
-    return dict(tokens=tokens, single=single, double=double, triple=triple, keywords=kws, continuation=cont)
+    # a canonical order: reordering match arms / table rows / alternatives of the or-pattern changes nothing
+    return dict(tokens=tokens, single=sorted(single), double=sorted(double), triple=sorted(triple), keywords=sorted(kws),
+                continuation=sorted(dict.fromkeys(cont)))
 
 
 def emit(tables) -> str:
